@@ -14,6 +14,7 @@ import torch
 
 import leaspy.models  # noqa: F401
 from leaspy.algo import AlgorithmSettings
+from leaspy.io.data import Data
 from leaspy.io.outputs import IndividualParameters
 from leaspy.models import BaseModel
 from leaspy.variables.specs import DataVariable, IndividualLatentVariable, PopulationLatentVariable
@@ -220,6 +221,25 @@ class Replayer:
                         df_sim = res.data.to_dataframe()
                         result = _h(df_sim[list(model.features)].values, df_sim["TIME"].values)
                         inputs_ok = vp == vsnap
+                    elif op == "FailedCall":
+                        raised = False
+                        try:
+                            if call[1] == "events_only":
+                                ev = pd.DataFrame({"ID": ["e1", "e2"], "EVENT_TIME": [70.0, 72.0], "EVENT_BOOL": [1, 0]})
+                                model.personalize(Data.from_dataframe(ev, data_type="event"), "mode_posterior", n_iter=3, seed=1, progress_bar=False)
+                            elif call[1] == "bad_ips":
+                                ips = IndividualParameters()
+                                ips.add_individual_parameters("a", {"tau": 70.0})
+                                model.estimate({"a": [70.0]}, ips)
+                            else:
+                                bad = self.dfs["D1"].assign(YEXTRA=0.5)         # one feature too many: fails deep inside the evaluation
+                                if "EVENT_TIME" in bad.columns:
+                                    bad = Data.from_dataframe(bad, data_type="joint")
+                                model.personalize(bad, "mode_posterior", n_iter=3, seed=1, progress_bar=False)
+                        except Exception:  # noqa: BLE001
+                            raised = True
+                        if not raised:
+                            return k, f"{call} did not raise", history
                     elif op == "Save":
                         model.save(fpath)
                     elif op == "Load":
@@ -260,7 +280,7 @@ class Replayer:
         return None
 
 
-N_SCRIPTS = 6
+N_SCRIPTS = 8
 
 
 def simulate_behaviours(outdir, num, depth, seed, seeds="{0}"):
